@@ -1,7 +1,42 @@
 import H5V.Proto
-/- engine `utf8` (stub) -/
+import H5V.Model.Utf8
+/- engine `utf8`:
+   `dec <chunks>`  chunks = bytes in hex, `|`-separated → sink calls `t:<hex>` / `e`, `;`-separated
+   `std <bytes>`   the modelled `str::from_utf8` → `ok` | `err <valid_up_to> <error_len|->`
+   `enc …`, `parse …` exercise the real library only (no model): answer `no-model`.  -/
 namespace H5V.Model.Utf8Driver
+open H5V.Proto H5V.Model.Utf8
 
-def runCase (_fields : List String) : String := "unimplemented"
+def showEvent : Event → String
+  | .text bs => "t:" ++ showBytes bs
+  | .error => "e"
+
+def parseByte? (n : Nat) : Option UInt8 := if n < 256 then some (UInt8.ofNat n) else none
+
+def parseBytesStrict? (s : String) : Option (List UInt8) :=
+  (parseNums? s).bind (·.mapM parseByte?)
+
+def parseChunks? (s : String) : Option (List (List UInt8)) :=
+  (s.splitOn "|").mapM parseBytesStrict?
+
+def runCase (fields : List String) : String :=
+  match fields with
+  | ["dec", chunks] =>
+    match parseChunks? chunks with
+    | none => "bad-case"
+    | some cs =>
+      match run cs with
+      | .error e => "PANIC " ++ e
+      | .ok evs => if evs.isEmpty then "-" else ";".intercalate (evs.map showEvent)
+  | ["std", bytes] =>
+    match parseBytesStrict? bytes with
+    | none => "bad-case"
+    | some bs =>
+      match fromUtf8 bs with
+      | .ok => "ok"
+      | .err v e => "err " ++ toString v ++ " " ++ (match e with | some n => toString n | none => "-")
+  | ["enc", _, _] => "no-model"
+  | ["parse", _, _] => "no-model"
+  | _ => "bad-case"
 
 end H5V.Model.Utf8Driver
